@@ -279,6 +279,7 @@ FlowMod(x, cmd, f, buf) ==
   /\ (buf = "stale" => FreeSlots # {})
   /\ (buf # "none" => \/ cmd = "add" /\ (f \in fs \/ Cardinality(fs) < MaxEntries)
                       \/ cmd = "addbad" /\ buf = "live")
+  /\ (cmd = "addbad" => Cardinality(fs) < MaxEntries)   \* (one thing wrong at a time)
   /\ CASE cmd = "add" ->
             IF f \notin fs /\ Cardinality(fs) >= MaxEntries
             THEN /\ UNCHANGED <<fs, fpk, ptx, pool>>
